@@ -5,7 +5,7 @@ accumulation is treated as exact (the properties are stated on integer-valued da
 Input blocks are *views* (symbolic offset into a larger object) because callers pass slices of the read buffer /
 of the ghost sample array.
 """
-from pvc.contract import Arr, Contract, Int, LoopSpec, Real
+from pvc.contract import Arr, Bool, Contract, Int, LoopSpec, Real
 
 K = "sigpyproc/core/kernels.py::"
 
@@ -50,24 +50,27 @@ def register(reg):
     reg.add(c)
 
     # ------------------------------------------------------------------ mask_channels
-    c = Contract(K + "mask_channels", props=["C07", "C16"],
+    c = Contract(K + "mask_channels", props=["C07", "C16"], ghost_params={"B": Int(0)},
                  params={"array": Arr("real", None, view=True), "mask": Arr("bool", "b1"), "maskvalue": Real(),
                          "nchans": Int(), "nsamps": Int()},
                  requires=["nchans >= 0", "nsamps >= 0", "nchans * nsamps <= len(array)", "nchans <= len(mask)",
                            "distinct(array, mask)"],
                  modifies=["array"])
-    cell = ("array[nchans * t + c] == (maskvalue if mask[c] else old(array[nchans * t + c]))")
+    at = "array[nchans * (T - B) + {c}]"
+    cell = (at.format(c="c") + " == (maskvalue if mask[c] else old(" + at.format(c="c") + "))")
+    same = at + " == old(" + at + ")"
     c.loops["0:ichan"] = LoopSpec([
-        ("done", f"forall(c, 0, ichan, forall(t, 0, nsamps, {cell}))"),
-        ("todo", "forall(c, ichan, nchans, forall(t, 0, nsamps, array[nchans*t + c] == old(array[nchans*t + c])))"),
-        ("tail", "forall(k, nchans * nsamps, len(array), array[k] == old(array[k]))")])
+        ("done", f"forall(c, 0, ichan, forall(T, B, B + nsamps, {cell}))"),
+        ("todo", "forall(c, ichan, nchans, forall(T, B, B + nsamps, " + same.format(c="c") + "))"),
+        ("tail", "forall(k, nchans * nsamps, len(array), array[k] == old(array[k]))"), ("flat", "forall(k, 0, len(array), array[k] == maskvalue or array[k] == old(array[k]))")])
     c.loops["1:isamp"] = LoopSpec([
-        ("done", f"forall(c, 0, ichan, forall(t, 0, nsamps, {cell}))"),
-        ("cur", "forall(t, 0, isamp, array[nchans*t + ichan] == maskvalue)"),
-        ("curtodo", "forall(t, isamp, nsamps, array[nchans*t + ichan] == old(array[nchans*t + ichan]))"),
-        ("todo", "forall(c, ichan + 1, nchans, forall(t, 0, nsamps, array[nchans*t + c] == old(array[nchans*t + c])))"),
-        ("tail", "forall(k, nchans * nsamps, len(array), array[k] == old(array[k]))")])
-    c.ensure("masked", f"forall(c, 0, nchans, forall(t, 0, nsamps, {cell}))")
+        ("done", f"forall(c, 0, ichan, forall(T, B, B + nsamps, {cell}))"),
+        ("cur", "forall(T, B, B + isamp, " + at.format(c="ichan") + " == maskvalue)"),
+        ("curtodo", "forall(T, B + isamp, B + nsamps, " + same.format(c="ichan") + ")"),
+        ("todo", "forall(c, ichan + 1, nchans, forall(T, B, B + nsamps, " + same.format(c="c") + "))"),
+        ("tail", "forall(k, nchans * nsamps, len(array), array[k] == old(array[k]))"), ("flat", "forall(k, 0, len(array), array[k] == maskvalue or array[k] == old(array[k]))")])
+    c.ensure("masked", f"forall(c, 0, nchans, forall(T, B, B + nsamps, {cell}))")
+    c.ensure("flat", "forall(k, 0, len(array), array[k] == maskvalue or array[k] == old(array[k]))")
     c.ensure("tail", "forall(k, nchans * nsamps, len(array), array[k] == old(array[k]))")
     reg.add(c)
 
@@ -93,19 +96,27 @@ def register(reg):
     reg.add(c)
 
     # ------------------------------------------------------------------ invert_freq
-    c = Contract(K + "invert_freq", props=["C07"],
+    # ghost B: time origin of the block; clauses are stated over the absolute sample index T = B + (row in block),
+    # so that a caller appending blocks one after the other matches them without re-indexing
+    c = Contract(K + "invert_freq", props=["C07"], ghost_params={"B": Int(0), "LO": Real(), "HI": Real(), "CHK": Bool()},
                  params={"array": Arr("real", None, view=True), "nchans": Int(), "nsamps": Int()},
-                 requires=["nchans >= 0", "nsamps >= 0", "nchans * nsamps <= len(array)"],
-                 ret=Arr("real", None))
-    cell = "forall(c, 0, nchans, {out}[nchans * t + c] == array[nchans * t + (nchans - 1 - c)])"
-    c.loops["0:isamp"] = LoopSpec([("reversed", "forall(t, 0, isamp, " + cell.format(out="outarray") + ")"),
-                                   ("len", "len(outarray) == len(array) and distinct(outarray, array)")])
+                 requires=["nchans >= 0", "nsamps >= 0", "nchans * nsamps <= len(array)",
+                           "implies(CHK, forall(k, off(array), off(array) + len(array), LO <= raw(array, k) and raw(array, k) <= HI))"],
+                 ret=Arr("real", None), ret_like="array")
+    cell = ("forall(c, 0, nchans, {out}[nchans * (T - B) + c] == array[nchans * (T - B) + (nchans - 1 - c)])")
+    inrange = "forall(k, 0, len(array), LO <= array[k] and array[k] <= HI)"
+    c.loops["0:isamp"] = LoopSpec([("reversed", "forall(T, B, B + isamp, " + cell.format(out="outarray") + ")"),
+                                   ("len", "len(outarray) == len(array) and distinct(outarray, array)"),
+                                   ("range", "implies(CHK, forall(k, 0, nchans * isamp, "
+                                             "LO <= outarray[k] and outarray[k] <= HI))")])
     c.ensure("len", "len(result) == len(array)")
-    c.ensure("reversed", "forall(t, 0, nsamps, " + cell.format(out="result") + ")")
+    # a permutation keeps every value inside whatever range the input lies in (used for the packed depths)
+    c.ensure("range", "implies(CHK, forall(k, 0, nchans * nsamps, LO <= result[k] and result[k] <= HI))")
+    c.ensure("reversed", "forall(T, B, B + nsamps, " + cell.format(out="result") + ")")
     reg.add(c)
 
     # ------------------------------------------------------------------ subband
-    c = Contract(K + "subband", props=["C07"], ghost_params=dict(GB),
+    c = Contract(K + "subband", props=["C07"], ghost_params={"B": Int(0), "A0": Int(0)},
                  params={"inarray": Arr("real", None, view=True), "outarray": Arr("real", "f4"),
                          "delays": Arr("int", "i4"), "chan_to_sub": Arr("int", "i4"), "maxdelay": Int(),
                          "nchans": Int(), "nsubs": Int(), "nsamps": Int()},
@@ -114,18 +125,18 @@ def register(reg):
                            "forall(c, 0, nchans, 0 <= delays[c] and delays[c] <= maxdelay)",
                            "forall(c, 0, nchans, 0 <= chan_to_sub[c] and chan_to_sub[c] < nsubs)",
                            "implies(nsamps > maxdelay, nsubs * (nsamps - maxdelay) <= len(outarray))",
-                           "distinct(inarray, outarray, delays, chan_to_sub)", ATB],
+                           "distinct(inarray, outarray, delays, chan_to_sub)", "off(inarray) == nchans * A0"],
                  modifies=["outarray"])
-    cell = ("outarray[nsubs * {t} + s] == old(outarray[nsubs * {t} + s]) + dsel(arr(inarray), nchans, B + {t}, "
-            "arr(delays), arr(chan_to_sub), s, {n})")
+    at = "outarray[nsubs * ({T} - B) + s]"
+    cell = (at + " == old(" + at + ") + dsel(arr(inarray), nchans, A0 + {T} - B, arr(delays), arr(chan_to_sub), s, {n})")
     c.loops["0:isamp"] = LoopSpec([
-        ("dsel", "forall(t, 0, isamp, forall(s, 0, nsubs, " + cell.format(t="t", n="nchans") + "))"),
+        ("dsel", "forall(T, B, B + isamp, forall(s, 0, nsubs, " + cell.format(T="T", n="nchans") + "))"),
         ("frame", "forall(k, nsubs * isamp, len(outarray), outarray[k] == old(outarray[k]))")])
     c.loops["1:ichan"] = LoopSpec([
-        ("dsel", "forall(t, 0, isamp, forall(s, 0, nsubs, " + cell.format(t="t", n="nchans") + "))"),
-        ("cur", "forall(s, 0, nsubs, " + cell.format(t="isamp", n="ichan") + ")"),
+        ("dsel", "forall(T, B, B + isamp, forall(s, 0, nsubs, " + cell.format(T="T", n="nchans") + "))"),
+        ("cur", "forall(s, 0, nsubs, " + cell.format(T="(B + isamp)", n="ichan") + ")"),
         ("frame", "forall(k, nsubs * (isamp + 1), len(outarray), outarray[k] == old(outarray[k]))")])
-    c.ensure("dsel", "forall(t, 0, nsamps - maxdelay, forall(s, 0, nsubs, " + cell.format(t="t", n="nchans") + "))")
+    c.ensure("dsel", "forall(T, B, B + nsamps - maxdelay, forall(s, 0, nsubs, " + cell.format(T="T", n="nchans") + "))")
     c.ensure("frame", "forall(k, nsubs * (nsamps - maxdelay if nsamps > maxdelay else 0), len(outarray), "
                       "outarray[k] == old(outarray[k]))")
     reg.add(c)
@@ -146,7 +157,7 @@ def register(reg):
     reg.add(c)
 
     # ------------------------------------------------------------------ downsample_2d_mean_flat
-    c = Contract(K + "downsample_2d_mean_flat", props=["C14", "C07"],
+    c = Contract(K + "downsample_2d_mean_flat", props=["C14"],
                  params={"array": Arr("real", "f4", view=True), "factor1": Int(), "factor2": Int(), "dim1": Int(),
                          "dim2": Int()},
                  requires=["factor1 >= 1", "factor2 >= 1", "dim1 >= 0", "dim2 >= 0", "dim1 * dim2 <= len(array)"],
@@ -160,7 +171,8 @@ def register(reg):
     acc1 = ("temp == ssum2(arr(array), off(array) + dim2 * factor1 * i + factor2 * j, dim2, factor2, ifactor)")
     acc2 = ("temp == ssum2(arr(array), off(array) + dim2 * factor1 * i + factor2 * j, dim2, factor2, ifactor) + "
             "ssum(arr(array), off(array) + dim2 * factor1 * i + factor2 * j + dim2 * ifactor, 1, ifactor2)")
-    c.loops["0:i"] = LoopSpec([("rows", rows), ("len", geom)])
+    c.loops["0:i"] = LoopSpec([("rows", rows), ("len", geom)],
+                              end_hints=[("row done", "forall(b, 0, " + nd2 + ", " + cell.format(I="(i - 1)", J="b") + ")")])
     c.loops["1:j"] = LoopSpec([("rows", rows), ("cur", cur), ("len", geom)])
     c.loops["2:ifactor"] = LoopSpec([("rows", rows), ("cur", cur), ("acc", acc1), ("len", geom)])
     c.loops["3:ifactor2"] = LoopSpec([("rows", rows), ("cur", cur), ("acc", acc2), ("len", geom)])
@@ -174,30 +186,30 @@ def register(reg):
 
     class U1(Arr):
         label = "u1"
-    c = Contract(K + "remove_zerodm", props=["C07"], ghost_params=dict(GB),
+    c = Contract(K + "remove_zerodm", props=["C07"], ghost_params={"B": Int(0), "A0": Int(0)},
                  params={"inarray": Arr("real", None, view=True), "outarray": Arr("real", "f4"),
                          "bpass": Arr("real", "f4"), "chanwts": Arr("real", "f4"), "nchans": Int(), "nsamps": Int()},
                  cases={"outarray": [F4("real", "f4"), U1("int", "u1")]},
                  requires=["nchans >= 0", "nsamps >= 0", "nchans * nsamps <= len(inarray)",
                            "nchans * nsamps <= len(outarray)", "nchans <= len(bpass)", "nchans <= len(chanwts)",
-                           "distinct(inarray, outarray, bpass, chanwts)", ATB],
+                           "distinct(inarray, outarray, bpass, chanwts)", "off(inarray) == nchans * A0"],
                  modifies=["outarray"])
-    val = ("(inarray[nchans * {t} + {c}] - rsum(arr(inarray), nchans, B + {t}, nchans) * chanwts[{c}]"
+    val = ("(inarray[nchans * ({t} - B) + {c}] - rsum(arr(inarray), nchans, A0 + {t} - B, nchans) * chanwts[{c}]"
            " + bpass[{c}])")
     # float32 output: the value itself; uint8 output: its truncation when it is representable
-    cell = ("(outarray[nchans * {t} + {c}] == " + val + ") if is_real_array(outarray) else "
-            "implies(0 <= " + val + " and " + val + " < 256, outarray[nchans * {t} + {c}] <= " + val + " and " + val +
-            " < outarray[nchans * {t} + {c}] + 1)")
-    rows = "forall(t, 0, isamp, forall(c, 0, nchans, " + cell.format(t="t", c="c") + "))"
+    cell = ("(outarray[nchans * ({t} - B) + {c}] == " + val + ") if is_real_array(outarray) else "
+            "implies(0 <= " + val + " and " + val + " < 256, outarray[nchans * ({t} - B) + {c}] <= " + val + " and " + val +
+            " < outarray[nchans * ({t} - B) + {c}] + 1)")
+    rows = "forall(T, B, B + isamp, forall(c, 0, nchans, " + cell.format(t="T", c="c") + "))"
     frame = "forall(k, nchans * {n}, len(outarray), outarray[k] == old(outarray[k]))"
     c.loops["0:isamp"] = LoopSpec([("rows", rows), ("frame", frame.format(n="isamp"))])
     c.loops["1:ichan"] = LoopSpec([("rows", rows), ("frame", frame.format(n="isamp")),
-                                   ("zerodm", "zerodm == rsum(arr(inarray), nchans, B + isamp, ichan)")])
+                                   ("zerodm", "zerodm == rsum(arr(inarray), nchans, A0 + isamp, ichan)")])
     c.loops["2:ichan"] = LoopSpec([("rows", rows), ("frame", frame.format(n="(isamp + 1)")),
-                                   ("zerodm", "zerodm == rsum(arr(inarray), nchans, B + isamp, nchans)"),
-                                   ("cur", "forall(c, 0, ichan, " + cell.format(t="isamp", c="c") + ")"),
+                                   ("zerodm", "zerodm == rsum(arr(inarray), nchans, A0 + isamp, nchans)"),
+                                   ("cur", "forall(c, 0, ichan, " + cell.format(t="(B + isamp)", c="c") + ")"),
                                    ("curframe", "forall(k, nchans * isamp + ichan, nchans * (isamp + 1), "
                                                 "outarray[k] == old(outarray[k]))")])
-    c.ensure("rows", "forall(t, 0, nsamps, forall(c, 0, nchans, " + cell.format(t="t", c="c") + "))")
+    c.ensure("rows", "forall(T, B, B + nsamps, forall(c, 0, nchans, " + cell.format(t="T", c="c") + "))")
     c.ensure("frame", frame.format(n="nsamps"))
     reg.add(c)
